@@ -669,6 +669,35 @@ Proof.
   replace (n + 7 <? 2 ^ 64) with true by lia. cbn [bind]. change (8 =? 0) with false. cbv iota. reflexivity.
 Qed.
 
+(* words_to_bytes / words_to_bits over their whole argument space, in both build modes: exact while the product
+   fits a usize, an overflow panic (checks on) or the product mod 2^64 (checks off) beyond *)
+Theorem words_to_bytes_total m n :
+  f_words_to_bytes m n =
+    if n * 8 <? 2 ^ 64 then Ok (n * 8)
+    else match m with Debug => Panic POverflow | Release => Ok ((n * 8) mod 2 ^ 64) end.
+Proof. unfold f_words_to_bytes, umul. cbn [bind]. change bits_WORD_BYTES with 8. reflexivity. Qed.
+
+Theorem words_to_bits_total m n :
+  f_words_to_bits m n =
+    if n * 64 <? 2 ^ 64 then Ok (n * 64)
+    else match m with Debug => Panic POverflow | Release => Ok ((n * 64) mod 2 ^ 64) end.
+Proof. unfold f_words_to_bits, umul. cbn [bind]. change bits_WORD_BITS with 64. reflexivity. Qed.
+
+(* the two conversions invert each other on every word count whose size in bits / bytes is a usize *)
+Theorem words_bits_words m n :
+  n * 64 + 63 < 2 ^ 64 -> bind (f_words_to_bits m n) (f_bits_to_words m) = Ok n.
+Proof.
+  intros H. rewrite words_to_bits_total. replace (n * 64 <? 2 ^ 64) with true by lia. cbn [bind].
+  destruct (bits_to_words_spec m (n * 64) H) as [E _]. rewrite E. f_equal. lia.
+Qed.
+
+Theorem words_bytes_words m n :
+  n * 8 + 7 < 2 ^ 64 -> bind (f_words_to_bytes m n) (f_bytes_to_words m) = Ok n.
+Proof.
+  intros H. rewrite words_to_bytes_total. replace (n * 8 <? 2 ^ 64) with true by lia. cbn [bind].
+  rewrite bytes_to_words_spec by exact H. f_equal. lia.
+Qed.
+
 Theorem round_up_to_word_bits_spec m n :
   n + 63 < 2 ^ 64 ->
   exists r, f_round_up_to_word_bits m n = Ok r /\ n <= r < n + 64 /\ r mod 64 = 0.
